@@ -2,5 +2,5 @@ SPECIFICATION MCSpec
 CONSTANTS
     MaxSubst = 1
     Level = 1
-INVARIANTS InvC01 InvC03 InvC04 InvC05 InvC06 InvC12 InvC15 InvC16 InvC18 Export
+INVARIANTS InvC01 InvC03 InvC04 InvC05 InvC06 InvC08 InvC12 InvC15 InvC16 InvC18 Export
 CHECK_DEADLOCK FALSE
